@@ -20,6 +20,10 @@ claimed = {
    text="Bounded exhaustive model checking: every string literal of <=3 (thorough: 4) units over a 28-unit alphabet of characters and valid/malformed escapes in both quote styles, the full product of number syntaxes (sign x 8 integer parts x 5 fractions x 10 exponents, bare and nested), and every JSON structure of depth <=2 (thorough: 3) and width <=2 in 3 whitespace policies, each evaluated on 7 inputs and compared with a strict RFC 8259 reference decoder (cross-checked against encoding/json).",
    note="Trusted: the 60-line reference string decoder, strconv.ParseFloat for the nearest double, encoding/json for structures. Texts that JSON itself rejects for reasons other than escapes/surrogates/range are outside the statement.",
    technique="explicit enumeration of all bounded JSON texts (stateless DFS) vs reference JSON decoder", design="§5 C11", engine=E1),
+ "C04": dict(
+   text="Bounded exhaustive model checking of the parser: every chain of 1-3 (thorough: 4) operators drawn from all 24 infix/postfix operators (every ordered tuple), with operands of 3 kinds, both quote styles, every single parenthesis span and 3 whitespace policies, parsed by the real parser and compared - as canonical trees built from the exported AST - with a precedence-climbing reference parser driven only by the statement's row table (static errors predicted by class); plus complete tables for regex-vs-division after every token kind and for and/or/in as names.",
+   note="Trusted: the ~120-line reference parser and the AST-to-canonical-tree conversion (paths flattened to step lists, stacked predicates to filter lists - the two forms the optimiser produces). Unary minus and chains longer than 4 are not covered.",
+   technique="explicit enumeration of all operator chains (stateless DFS) vs table-driven reference parser on canonical ASTs", design="§5 C04", engine=E1),
 }
 pending_reason = "check not built yet in this session (planned, see DESIGN.md §5)"
 
